@@ -275,6 +275,17 @@ func c07Cases(tier string, emit func(c c07Case)) {
 		"nul-bytes":            lines[0] + "\n\x00\x00\x00\x00\n" + lines[len(lines)-1] + "\n",
 		"huge-header-line":     "-----BEGIN " + strings.Repeat("A", 100000) + "-----\n" + rewrap(body, 64) + lines[len(lines)-1] + "\n",
 		"body-1MiB-no-newline": lines[0] + "\n" + strings.Repeat("A", 1<<20),
+		// a complete list followed by something else than a well-formed END line
+		"end-line-four-dashes":   strings.Join(lines[:len(lines)-1], "\n") + "\n-----END X509 CRL----\n",
+		"end-line-no-dashes":     strings.Join(lines[:len(lines)-1], "\n") + "\nEND X509 CRL\n",
+		"end-line-lowercase":     strings.Join(lines[:len(lines)-1], "\n") + "\n-----end x509 crl-----\n",
+		"text-after-end":         pm + "this list was issued by the verif test CA\n",
+		"base64-after-end":       pm + "QUJDRA==\n",
+		"binary-after-end":       pm + "\x00\x01\x02\xff\xfe\n",
+		"second-list-after-end":  pm + pm,
+		"text-in-front-of-begin": "Certificate Revocation List (CRL):\n    Version 2 (0x1)\n" + pm,
+		"der-followed-by-text":   string(der) + "trailing text\n",
+		"der-followed-by-der":    string(der) + string(der),
 		// very many lines of one kind in a row (whatever the reader does per line it must not pile up: stack, memory)
 		"4M-armour-lines": lines[0] + "\n" + strings.Repeat("----------\n", 4<<20) + rewrap(body, 64) + lines[len(lines)-1] + "\n",
 		"4M-begin-lines":  strings.Repeat(lines[0]+"\n", 1<<20) + rewrap(body, 64) + lines[len(lines)-1] + "\n",
